@@ -49,6 +49,8 @@ def shards(tier, seed):
 		reps = (3 if mode != 'processes' else 2) if tier == 'quick' else 10
 		for j in range(reps):
 			out.append(dict(name=f'pool-{mode}-{j}', kind='pool', mode=mode, sub=j, runs=8 if tier == 'quick' else 14))
+	for j in range(2 if tier == 'quick' else 8):
+		out.append(dict(name=f'threads-yield-{j}', kind='pool', mode='threads', sub=100 + j, runs=6 if tier == 'quick' else 14, yield_injection=True))
 	out.append(dict(name='fail', kind='fail', nmax=4 if tier == 'quick' else 6))
 	out.append(dict(name='cli-create', kind='cli', runs=5 if tier == 'quick' else 25))
 	return out
@@ -254,10 +256,56 @@ def _delayed_calc(kspec, seqfile, **kw):
 	return _ORIG(kspec, seqfile, **kw)
 
 
+class YieldInjector:
+	"""sys.monitoring LINE callback on the per-file signature code that gives up the GIL (sleep(0)) at a seeded subset of
+	statement starts, so that thread-pool tasks really interleave *inside* calc_signature / accumulate_kmers / find_kmers."""
+	TOOL = 3
+
+	def __init__(self, seed):
+		import sys
+		import gambit.sigs.calc as gc
+		import gambit.kmers as gk
+		self.m = sys.monitoring
+		self.n = 0
+		self.yields = 0
+		self.salt = (hash(seed) & 0xFFFF) | 1
+		self.codes = [gc.accumulate_kmers.__code__, gc.calc_signature.__code__, gk.find_kmers.__code__, gk.KmerMatch.kmer_index.__code__,
+		              gc.ArrayAccumulator.add.__code__, gc.SetAccumulator.add.__code__, gc.ArrayAccumulator.signature.__code__, gc.SetAccumulator.signature.__code__,
+		              gc.calc_file_signature.__code__]
+		self.m.use_tool_id(self.TOOL, 'verif-yield')
+		for c in self.codes:
+			self.m.set_local_events(self.TOOL, c, self.m.events.LINE)
+		self.m.register_callback(self.TOOL, self.m.events.LINE, self._cb)
+
+	def _cb(self, code, line):
+		self.n += 1
+		if (self.n * self.salt) % 5 == 0:
+			self.yields += 1
+			time.sleep(0)
+
+	def close(self):
+		for c in self.codes:
+			self.m.set_local_events(self.TOOL, c, 0)
+		self.m.register_callback(self.TOOL, self.m.events.LINE, None)
+		self.m.free_tool_id(self.TOOL)
+
+
 def run_pool(sh, ctx):
 	global _ORIG
 	import gambit.sigs.calc as gc
 	from gambit.kmers import KmerSpec
+	inj = YieldInjector(f'{ctx.seed}-{sh["sub"]}') if sh.get('yield_injection') else None
+	try:
+		_run_pool(sh, ctx, gc, KmerSpec)
+	finally:
+		if inj is not None:
+			ctx.count('yield_injection_line_events', inj.n)
+			ctx.count('yield_injections', inj.yields)
+			inj.close()
+
+
+def _run_pool(sh, ctx, gc, KmerSpec):
+	global _ORIG
 	rng = random.Random(f'C13-{ctx.seed}-{sh["name"]}')
 	ks = KmerSpec(K, PREFIX)
 	mode = None if sh['mode'] == 'none' else sh['mode']
@@ -266,8 +314,8 @@ def run_pool(sh, ctx):
 	gc.calc_file_signature = _delayed_calc
 	try:
 		for r in range(sh['runs']):
-			n = rng.choice([1, 2, 3, 8, 20, 40])
-			skew = rng.random() < 0.4 and mode is not None
+			n = rng.choice([1, 2, 3, 8, 20, 40]) if not sh.get('yield_injection') else rng.choice([4, 8, 12])
+			skew = rng.random() < 0.4 and mode is not None and not sh.get('yield_injection')
 			files, exps = make_files(ctx, rng, n, skew=skew, tag=f'r{r}_')
 			_DELAYS.clear()
 			style = rng.choice(['none', 'decreasing', 'random'])
@@ -442,7 +490,7 @@ def run_shard(sh, ctx):
 def finalize(merged, tier, seed, inconclusive):
 	c = merged['counters']
 	for n in ['forced_runs', 'orders_delivered_exactly_as_chosen', 'non_identity_orders_delivered', 'pool_runs:none', 'pool_runs:threads', 'pool_runs:processes',
-	          'failures_propagated', 'caller_executor_still_usable', 'failure_runs:processes', 'failure_runs:perm']:
+	          'failures_propagated', 'caller_executor_still_usable', 'failure_runs:processes', 'failure_runs:perm', 'yield_injections']:
 		if c.get(n, 0) == 0:
 			inconclusive.append(f'class never observed: {n}')
 	if c.get('pool_orders_observed', 0) and c.get('pool_orders_not_identity', 0) == 0:
